@@ -1241,7 +1241,7 @@ pub fn run(tier: Tier, replay_file: Option<&str>) -> i32 {
             "entities with pre-populated indirect_ancestors occur only in the EnforceAlreadyComputed sweep",
             "hash-map iteration order is not enumerated (insertion orders are)",
         ],
-        done,
+        done && !stopped_early,
     );
     code
 }
